@@ -5,41 +5,12 @@
   untrusted: the check validates what it uses.
 -/
 import Bashlex.LR.Sound
+import Bashlex.LR.RealTables
 
 namespace Bashlex.LR
 set_option linter.unusedSimpArgs false
 
-structure Raw where
-  nTerms : Nat
-  prods : List (Nat × List Nat)
-  actionRows : List (List Nat)
-  gotoRows : List (List Nat)
-  dflt : List (Nat × Nat)
-  endTok : Nat
-  nlTok : Nat
-  /-- certificates -/
-  reach : List Nat
-  acc : List Nat
-  preds : List (List Nat)
-
-def decodeAct (code : Nat) : Act :=
-  if 2048 < code then .shift (code - 2048) else if code < 2048 then .reduce (2048 - code) else .accept
-
-def rowLookup (row : List Nat) (k : Nat) : Option Nat :=
-  (row.find? (fun e => e / 4096 == k)).map (· % 4096)
-
 namespace Raw
-def actionRow (R : Raw) (s : Nat) : List Nat := R.actionRows.getD s []
-def gotoRow (R : Raw) (s : Nat) : List Nat := R.gotoRows.getD s []
-def action (R : Raw) (s la : Nat) : Option Act := (rowLookup (R.actionRow s) la).map decodeAct
-def goto (R : Raw) (s X : Nat) : Option Nat := rowLookup (R.gotoRow s) X
-def dfltOf (R : Raw) (s : Nat) : Option Nat := (R.dflt.find? (fun d => d.1 == s)).map (·.2)
-def accOf (R : Raw) (s : Nat) : Nat := R.acc.getD s 0
-def predsOf (R : Raw) (s : Nat) : List Nat := R.preds.getD s []
-
-def toTables (R : Raw) : Tables :=
-  { nTerms := R.nTerms, prods := R.prods, action := R.action, goto := R.goto, dflt := R.dfltOf,
-    endTok := R.endTok, nlTok := R.nlTok }
 
 /-- boolean version of `BackOK` -/
 def backOK (R : Raw) : List Nat → Nat → Nat → Bool
